@@ -28,6 +28,7 @@ mod mon_c13;
 mod mon_c14;
 mod refdefs;
 mod mon_c15;
+mod mon_c17;
 mod mon_c19;
 mod mon_c20;
 
@@ -130,6 +131,8 @@ fn main() {
         "C14" => mon_c14::run(&mut ctx),
         "C15" => mon_c15::run_c15(&mut ctx),
         "C16" => mon_c15::run_c16(&mut ctx),
+        "C17" => mon_c17::run(&mut ctx, false),
+        "C18" => mon_c17::run(&mut ctx, true),
         "C19" => mon_c19::run(&mut ctx),
         "C20" => mon_c20::run(&mut ctx),
         _ => {
